@@ -165,6 +165,14 @@ func domainBytes(class string, salt byte) []byte {
 		n, _ := strconv.Atoi(class[3:])
 		return bytes.Repeat([]byte{1}, n)
 	}
+	if i := strings.Index(class, ":len"); i > 0 { // right type prefix, wrong length, e.g. "att:len31"
+		n, _ := strconv.Atoi(class[i+4:])
+		full := domainBytes(class[:i], salt)
+		for len(full) < n {
+			full = append(full, salt)
+		}
+		return full[:n]
+	}
 	d := make([]byte, 32)
 	t, ok := DomainTypes[class]
 	if !ok {
@@ -404,6 +412,19 @@ func (r *Runner) runSign(ctx context.Context, st *Stack, b *Base, op Op) {
 		ients[i] = Ev{"k": fmt.Sprintf("k%d", er.ent.K), "s": er.ent.S, "t": er.ent.T, "slot": er.ent.Slot, "root": er.ent.Root, "dom": er.dom}
 	}
 	r.Log.Emit(Ev{"ev": "Invoke", "r": op.ID, "kind": op.Kind, "ents": ients, "client": client, "ip": op.IP})
+	defer func() {
+		// A panic on the request goroutine (gRPC would turn it into a process crash) is recorded and the
+		// driver goes on, so that the remaining scenarios are still examined.
+		if p := recover(); p != nil {
+			r.Log.Emit(Ev{"ev": "Panic", "r": op.ID, "what": fmt.Sprint(p)})
+			n := len(op.Ents)
+			res := make([]string, n)
+			for i := range res {
+				res[i] = "PANIC"
+			}
+			r.Log.Emit(Ev{"ev": "Respond", "r": op.ID, "kind": op.Kind, "n": n, "res": res, "sig": make([]bool, n), "sigok": make([]bool, n)})
+		}
+	}()
 
 	states := make([]string, 0, len(ers))
 	sigs := make([][]byte, 0, len(ers))
